@@ -332,10 +332,33 @@ func (r *rw) stmt(s ast.Stmt) ast.Stmt {
 	return s
 }
 
+// counterfactual for known finding KF-C01-1: path-local visited sets in checkExpandSubject.
+const cf5Old = `			innerCtx, visited = graph.CheckAndAddVisited(innerCtx, sub)
+			if visited {
+				continue
+			}
+			g.Add(e.checkIsAllowed(innerCtx, result.To, restDepth, true))`
+const cf5New = `			var childCtx context.Context
+			childCtx, visited = graph.VerifPathLocal(ctx, sub)
+			if visited {
+				continue
+			}
+			_ = innerCtx
+			g.Add(e.checkIsAllowed(childCtx, result.To, restDepth, true))`
+
+var cf5 = false
+var cf5Applied = false
+
 func process(fset *token.FileSet, path string) (out []byte, counts map[string]int, errs []string) {
 	src, err := os.ReadFile(path)
 	if err != nil {
 		return nil, nil, []string{err.Error()}
+	}
+	if cf5 && strings.HasSuffix(path, "internal/check/engine.go") {
+		if strings.Count(string(src), cf5Old) == 1 {
+			src = []byte(strings.Replace(string(src), cf5Old, cf5New, 1))
+			cf5Applied = true
+		}
 	}
 	f, err := parser.ParseFile(fset, path, src, parser.ParseComments|parser.SkipObjectResolution)
 	if err != nil {
@@ -442,6 +465,7 @@ func main() {
 	profile := flag.String("profile", "check", "instrumentation profile")
 	repo := flag.String("repo", "/repo", "keto working tree")
 	out := flag.String("out", "", "output directory")
+	flag.BoolVar(&cf5, "cf5", false, "apply the counterfactual patch for KF-C01-1 (path-local visited sets)")
 	flag.Parse()
 	dirs, ok := profiles[*profile]
 	if !ok || *out == "" {
@@ -478,6 +502,10 @@ func main() {
 			}
 			overlay[src] = dst
 		}
+	}
+	if cf5 && !cf5Applied {
+		fmt.Println("vinstr: counterfactual cf5 is not applicable to this tree (checkExpandSubject changed)")
+		os.Exit(3)
 	}
 	if len(errs) > 0 {
 		for _, e := range errs {
